@@ -73,6 +73,9 @@ pub struct Model {
     pub whitelist: BTreeSet<String>,
     /// the insurance fund's registry as the history of accepted AddVamm / RemoveVamm calls implies it
     pub registry_ref: BTreeSet<String>,
+    /// the registries of the insurance funds the engine is not configured with at the moment (by fund address), each
+    /// as the history of accepted calls left it
+    pub registry_parked: BTreeMap<String, BTreeSet<String>>,
     /// whether each vAMM is open, from the history of accepted SetOpen / ShutdownVamms calls
     pub open_ref: Vec<bool>,
     /// configuration values as the history of accepted configuration calls leaves them (named field -> value):
@@ -602,7 +605,12 @@ impl Runner {
                 let a = self.w.resolve(x);
                 if a != self.w.addrs.insurance_fund {
                     self.ev.count("engine_moved_to_other_insurance_fund");
-                    self.w.addrs.insurance_fund = a;
+                    // "the registry" is the one of the fund the engine is configured with: park the old fund's, take
+                    // up the new fund's (empty if nothing was ever registered there)
+                    let old = std::mem::replace(&mut self.w.addrs.insurance_fund, a.clone());
+                    let cur = std::mem::take(&mut self.model.registry_ref);
+                    self.model.registry_parked.insert(old, cur);
+                    self.model.registry_ref = self.model.registry_parked.remove(&a).unwrap_or_default();
                 }
             }
             match &step.op {
